@@ -35,6 +35,7 @@ EXPLANATION = (
     "(5) table and column read are the ones the constructor filled by calling the wrapped law's method of the "
     "same name, searched on that table's grid column, (6) grids are i*max/N for i=1..N resp. 1..2N, "
     "(7) single- and multi-point constructors agree. Not decided: numerical deviation < one class.")
+EXPLANATION += (' R-C07-8: the look-up tables are built once in the constructor and never re-ordered afterwards.')
 ASSUMPTIONS = [
     "numpy/pandas searchsorted(side='left') returns p with a[p-1] < v <= a[p] on an ascending array",
     "the wrapped law is monotone (C06) so the table's load column is ascending",
